@@ -27,6 +27,13 @@ Theorem C01_path_sound_complete : forall g p r used pa r' used',
   In (pa, r', used') (enum_path g p r used) <-> PathMatch g p r used pa r' used'.
 Proof. exact enum_path_spec. Qed.
 
+(* each assignment is enumerated exactly once (so the bag of rows has the right multiplicities),
+   on every graph whose node ids and relationship ids are unique *)
+Theorem C01_match_multiplicity : forall g,
+  NoDup (map r_id (g_rels g)) -> NoDup (map n_id (g_nodes g)) ->
+  forall iso ps r used, NoDup (map pats_key (enum_pats iso g ps r used)).
+Proof. exact enum_pats_nodup. Qed.
+
 (* a pattern node with several labels matches only nodes carrying all of them *)
 Theorem C01_multilabel : forall g p r used pa r' used',
   PathMatch g p r used pa r' used' ->
@@ -90,6 +97,17 @@ Theorem C01_union : forall cf g pe parts all ts,
   Ok (if all then concat ts
       else match parts with [_] => concat ts | _ => dedup_by row_vals_eqb (concat ts) end).
 Proof. exact union_spec. Qed.
+
+(* aggregation: one group per distinct grouping key (keys pairwise different, exactly the keys
+   of the input), and the groups partition the input rows *)
+Theorem C01_aggregate_groups : forall l : list (list value * row),
+  NoDup (map fst (group_rows l))
+  /\ (forall k, In k (map fst (group_rows l)) <-> In k (map fst l))
+  /\ Permutation (concat (map snd (group_rows l))) (map snd l).
+Proof.
+  intros l. destruct (group_rows_keys_spec l) as [H1 H2].
+  split; [exact H1 | split; [exact H2 | apply group_rows_partition]].
+Qed.
 
 (* OPTIONAL MATCH = MATCH when something matches, else the incoming row with the new
    variables null *)
@@ -163,6 +181,10 @@ Example C01_nonvacuous_match :
      = [[1]; [1; 3]; [2]; [2; 3]].
 Proof. vm_compute. repeat split. Qed.
 
+Example C01_nonvacuous_wf :
+  NoDup (map r_id (g_rels ex_graph)) /\ NoDup (map n_id (g_nodes ex_graph)).
+Proof. split; repeat (constructor; [cbn; intuition discriminate|]); constructor. Qed.
+
 (* WHERE n.p0 > 1 over nodes with p0 = 1, 2 and no p0: false, true, unknown; one row is kept *)
 Example C01_nonvacuous_where :
   eval_query ex_graph
@@ -170,6 +192,18 @@ Example C01_nonvacuous_where :
            (PJ false [(IExpr (EVar 1), 100)] [] None None)] false)
   = Ok [[VNode 2]].
 Proof. vm_compute. reflexivity. Qed.
+
+(* aggregates: count( * ) over no rows is one row 0; grouped by label list there are three groups *)
+Example C01_nonvacuous_aggregate :
+  eval_query ex_graph
+    (Q [SQ [CMatch false [(NP (Some 1) [3] [], [])] None]
+           (PJ false [(IAgg GCount false None, 100)] [] None None)] false) = Ok [[VInt 0]]
+  /\ eval_query ex_graph
+    (Q [SQ [CMatch false [(NP (Some 1) [] [], [(RP None [] DOut [] None, NP (Some 2) [] [])])] None]
+           (PJ false [(IExpr (EFn FId [EVar 1]), 100); (IAgg GCount false None, 101)]
+               [(EVar 100, true)] None None)] false)
+     = Ok [[VInt 1; VInt 2]; [VInt 2; VInt 1]; [VInt 3; VInt 1]].
+Proof. vm_compute. split; reflexivity. Qed.
 
 (* OPTIONAL MATCH pads with null; ORDER BY DESC; LIMIT *)
 Example C01_nonvacuous_pipeline :
@@ -240,6 +274,7 @@ Proof. vm_compute. repeat split. Qed.
 
 Print Assumptions C01_match_sound_complete.
 Print Assumptions C01_path_sound_complete.
+Print Assumptions C01_match_multiplicity.
 Print Assumptions C01_multilabel.
 Print Assumptions C01_rel_iso.
 Print Assumptions C01_varlen_trails.
@@ -250,6 +285,7 @@ Print Assumptions C01_orderby_sorted_perm.
 Print Assumptions C01_skip_limit.
 Print Assumptions C01_distinct.
 Print Assumptions C01_union.
+Print Assumptions C01_aggregate_groups.
 Print Assumptions C01_optional_match.
 Print Assumptions C01_optional_null_padding.
 Print Assumptions RW_topn.
